@@ -302,7 +302,7 @@ class FuzzyWeightedUnion(SameArrayShapeMixin, Command):
 
         result = arrays[0] * weights[0]
         for weight, arr in zip(weights[1:], arrays[1:]):
-            result += arr * weight
+            result = result + arr * weight
 
         result = result / sum(weights)
 
